@@ -67,6 +67,18 @@ def stepC13 (_ : Unit) (line : String) : Unit × String :=
   let (op, arg) := cut line
   match op with
   | "reset" => ((), "ok")
+  | "resetopt" => ((), "ok")
+  | "runopt" =>
+    -- runopt <shape> <K> <mask> <dbg> <desc>: mask 3 = OptDebugger|OptCtrlCEnterDebugger (the interrupt enters the
+    -- debugger, not modelled); otherwise `Run.interrupt` stores SigInterrupt and the model applies unchanged
+    match arg.splitOn " " with
+    | [_, k, mask, _, desc] =>
+      if mask == "3" then ((), "end=debugger")
+      else
+        let P := mkProg desc
+        let (c, e) := runLoop P 3000000 (start 0 k.toNat!)
+        ((), s!"after={c.after} dafter={c.dafter} calls={c.hooks} end={e}")
+    | _ => ((), "bad-op")
   | "async" => ((), "ok")
   | "race" => ((), "done")
   | "run" =>
